@@ -35,6 +35,10 @@ CHECKS = {
         text="SessionCache: every history of n get/set operations (operation kinds and IDs chosen by symbolic selectors - the same ID may be stored repeatedly - symbolic non-decreasing clock, symbolic maxAge and validity flags) is executed on the real class and z3 proves it refines the plain sequential specification (lookup succeeds iff the session last stored under the ID is younger than the limit, valid and not evicted; size bound; only KeyError). VerifierDB/BaseDB: histories over set/get/del/contains/keys refine a dict. Python_RSAKey._rawPrivateKeyOp on toy keys: result = m^d mod n for every residue from any invariant blinding pair, invariant re-established at lock release. On every explored path the mutex is replaced by a recording lock and the shared attributes sit behind access hooks: every access to shared state happens while the lock is held and the lock is released on every exit - with a real mutex that makes every interleaving equivalent to one of the sequential histories.",
         note="Thread interleavings are not enumerated: atomicity is derived from the lock discipline (rely/guarantee); preemption inside C-level dict/list operations is left to the GIL; RSA algebra on toy moduli (<= 12 bits); dbm file back ends are I/O and outside; histories of 3-4 (quick) / 5 (thorough) operations.",
         design="5/C18", technique=T),
+    "C20": dict(
+        text="The suite identifier is a symbolic 16-bit value pushed through the real parameter tables (_getCipherSettings, _getMacSettings, _getHMACMethod, calcPendingStates, calcTLS1_3PendingState, _calcTLS1_3KeyUpdate, filterForVersion, _filterSuites, canonicalCipherName/MacName, Session accessors); the membership tests of the real code split it into one path per id class including 'in no list', and on each path the key/IV/tag/MAC lengths, cipher family, MAC and PRF hash, key-block slicing and role assignment, minimum version and key-exchange family are compared with an independent parse of the IANA name; the list families are proved to partition the negotiable ids; _filterSuites is proved to admit a suite iff its cipher, MAC and key-exchange names are enabled (each relevant name dropped or swapped for every other name of the vocabulary).",
+        note="Cipher/MAC constructors and the PRF/HKDF are recorders (what is built from which slice is checked, not the primitive); observation through live handshakes and the key-exchange class selection chains in tlsconnection.py are not covered yet.",
+        design="5/C20", technique=T),
     "C19": dict(
         text="HandshakeSettings.validate() is executed on receivers whose list-valued fields are selected by symbolic selectors from the documented vocabularies (plus an unknown token, duplicates, empty list) and whose scalar fields are symbolic integers; on every path a deep snapshot shows the receiver unchanged (also when ValueError is raised), the result is a fixed point of validate(), contains only algorithms the running installation supports, lies inside the documented vocabularies, and z3 proves that each scalar is accepted exactly when it lies inside its documented domain (key sizes and their ordering, record_size_limit, ticket lifetime/count, max_early_data, dc_valid_time, version pair, EMS implication, boolean flags).",
         note="One list field (0..2 elements quick, 0..3 thorough) or one scalar group varies at a time, the rest are defaults; the sentence 'any two compatible validated settings complete a handshake' needs live endpoints and is not claimed here (nearest obligations: C03).",
